@@ -507,17 +507,20 @@ inline int flavour_main() {
         long samples = 0;
         for (auto& sp : spaces)
             for_each_single_method_registry(sp, [&](const rx::Registry& r0) {
-              for (int doubled = 0; doubled <= 1; ++doubled) {
+              for (int doubled = 0; doubled <= 2; ++doubled) {
                 rx::Registry r = r0;
                 if (doubled) {
-                    // one record per id of each class: both ids are registered
-                    if (2 * r0.nr > rx::MAXR)
+                    // one record per id of each class: both ids are registered;
+                    // doubled == 2: three records per class, ids interleaved
+                    // (id0, id1, id0) as when several libraries register it
+                    int per = doubled + 1;
+                    if (per * r0.nr > rx::MAXR)
                         continue;
                     r.nr = 0;
                     for (int i = 0; i < r0.nr; ++i)
-                        for (int al = 0; al < 2; ++al) {
+                        for (int k = 0; k < per; ++k) {
                             r.recs[r.nr] = r0.recs[i];
-                            r.recs[r.nr].alias = al;
+                            r.recs[r.nr].alias = k & 1;
                             ++r.nr;
                         }
                 }
